@@ -102,7 +102,46 @@ def scenario_decode():
     return None
 
 
+def scenario_compressed():
+    """the compressed replies with truncated, header-only, empty and garbage zlib bodies: the decoder must answer (with
+    MessageDeserializationError) within a time bound - linear work, no loop that waits for an end of stream that never comes"""
+    import signal
+    import struct
+    from aioslsk.network.connection import PeerConnection, PeerConnectionState, PeerConnectionType
+    from aioslsk.protocol.primitives import FileData, DirectoryData, Attribute
+    files = [FileData(1, f'track{i}.mp3', 1000 + i, 'mp3', [Attribute(0, 320)]) for i in range(50)]
+    good = M.PeerSharesReply.Request(directories=[DirectoryData('@@abc\\d', files)]).serialize()
+    code, body = good[4:8], good[8:]
+    bodies = [body[:len(body) // 2], body[:2], b'', body[:-4], b'\x78\x9c', body + body[:10], b'\x00' * 40]
+
+    class Timeout(BaseException):
+        pass
+
+    def on_alarm(signum, frm):
+        raise Timeout()
+    signal.signal(signal.SIGALRM, on_alarm)
+    c = PeerConnection('h', 1, None, obfuscated=False, connection_type=PeerConnectionType.PEER)
+    c.connection_state = PeerConnectionState.ESTABLISHED
+    for b in bodies:
+        data = struct.pack('<I', 4 + len(b)) + code + b
+        signal.setitimer(signal.ITIMER_REAL, 5.0)
+        try:
+            c.decode_message_data(data)
+        except MessageDeserializationError:
+            pass
+        except Timeout:
+            return f'decoding a PeerSharesReply with a {len(b)}-byte broken zlib body ({b[:8]!r}...) does not terminate within 5 s'
+        except Exception as e:      # noqa
+            return f'decode_message_data lets {type(e).__name__} escape for a broken zlib body of {len(b)} bytes'
+        finally:
+            signal.setitimer(signal.ITIMER_REAL, 0)
+    return None
+
+
 def main():
+    why = scenario_compressed()
+    if why:
+        verdict(True, why, scenario='broken compressed bodies')
     why = scenario_decode()
     if why:
         verdict(True, why, scenario='decode_message_data')
